@@ -1433,3 +1433,54 @@ Proof.
   intros Hl H. apply find_preds_exact. eapply Forall_impl; [|exact H].
   intros p Hp. now apply plain_served_ok.
 Qed.
+
+(* ------------------------------------------------------------------ the generated filter decisions *)
+Lemma keep_ann_g_eq key re p : keep_ann_g key re p = keep_ann key re p.
+Proof.
+  unfold keep_ann_g, keep_ann, filterAnnotation_keep.
+  destruct (d_ann p) as [m|]; simpl; [|reflexivity].
+  destruct (lookup key m) as [v|]; simpl; [|reflexivity].
+  destruct re; reflexivity.
+Qed.
+
+Lemma keep_at_g_eq re p : keep_at_g re p = re (d_at p).
+Proof. reflexivity. Qed.
+
+Lemma fill_at_g_eq s p : fill_at_g s p = fill_at s p.
+Proof. reflexivity. Qed.
+
+Lemma fill_ann_g_eq s p : fill_ann_g s p = fill_ann s p.
+Proof. unfold fill_ann_g, fill_ann, filterAnnotation_fetch_guard. destruct (d_ann p); reflexivity. Qed.
+
+Lemma filter_ext_eq {A} (f g : A -> bool) l : (forall a, f a = g a) -> List.filter f l = List.filter g l.
+Proof. intro H. induction l as [|a l IH]; simpl; auto. rewrite H, IH. reflexivity. Qed.
+
+Lemma apply_filter_g_eq s f ps : apply_filter_g s f ps = apply_filter s f ps.
+Proof.
+  destruct f as [[re|] | key re]; unfold apply_filter, apply_filter_gen, apply_filter_g; auto.
+  induction ps as [|p ps IH]; cbn [map List.filter]; auto.
+  rewrite fill_ann_g_eq, keep_ann_g_eq, IH. reflexivity.
+Qed.
+
+Lemma apply_lister_g_eq f ps : apply_lister_g f ps = apply_lister f ps.
+Proof.
+  destruct f as [[re|] | key re]; simpl; auto. apply filter_ext_eq. intro a. apply keep_ann_g_eq.
+Qed.
+
+Lemma step_g_eq s acc f : step_g s acc f = step_gen fill_at s acc f.
+Proof.
+  unfold step_g, step_gen. destruct (is_noop f); auto.
+  destruct (fst acc && s_lister s)%bool; [now rewrite apply_lister_g_eq|].
+  now rewrite apply_filter_g_eq.
+Qed.
+
+Lemma fold_step_g_eq s fs : forall acc,
+  fold_left (step_g s) fs acc = fold_left (step_gen fill_at s) fs acc.
+Proof. induction fs as [|f fs IH]; intro acc; simpl; auto. now rewrite step_g_eq, IH. Qed.
+
+(* what the runner executes for the filters is the proved function *)
+Lemma find_preds_g_eq s fs x : find_preds_g s fs x = find_preds s fs x.
+Proof. unfold find_preds_g, find_preds, find_preds_gen. now rewrite fold_step_g_eq. Qed.
+
+Lemma find_preds_custom_g_eq s c fs x : find_preds_custom_g s c fs x = find_preds_custom s c fs x.
+Proof. unfold find_preds_custom_g, find_preds_custom. now rewrite fold_step_g_eq. Qed.
